@@ -133,6 +133,18 @@ def _dt(it, a, kw):
     return SInt(K.dtprofup_of(a[0].e))
 
 
+validated_by_this_call = _sym("validated_by_this_call")
+
+
+def _validated(it, a, kw):
+    z3, K, SVal, SBool, SInt, V = _c15()
+    buf = a[0]
+    if not isinstance(buf, K.ABuf) or not isinstance(buf.content, SVal):
+        return False
+    return SBool(K.parse_ok(buf.content.e))       # holds only as a fact of the path: this call parsed exactly these bytes
+
+
+validated_by_this_call._pyvc_model = _validated
 cache_wellformed._pyvc_model = _cache_wellformed
 CACHE0._pyvc_model = _const("CACHE0")
 RESPONSE._pyvc_model = _const("RESPONSE")
